@@ -27,7 +27,7 @@ Ev(e) == l <= Len(Trace) /\ Trace[l].ev = e /\ l' = l + 1
 ToSet(sq) == {sq[i] : i \in 1..Len(sq)}
 
 Reset == /\ Trace[l].maxtries = MaxTries                 \* consts.BulkMaxTries of the code under test
-         /\ up' = Each(TRUE) /\ stored' = Each({}) /\ fresh' = Each({}) /\ sealedb' = Each({}) /\ dup' = Each({})
+         /\ up' = Each(TRUE) /\ stored' = Each({}) /\ fresh' = Each({}) /\ sealedb' = Each({}) /\ redel' = Each({}) /\ xtra' = Each(0)
          /\ size' = [b \in 1..MaxBulk |-> 0] /\ acked' = {} /\ failed' = {} /\ fly' = <<>>
          /\ q' = QIdle /\ res' = NoRes /\ faults' = 0 /\ nsearch' = 0 /\ shuffle' = (Trace[l].shuffle = 1)
 
@@ -36,7 +36,7 @@ Reset == /\ Trace[l].maxtries = MaxTries                 \* consts.BulkMaxTries 
 ObsMatches(o) == \A s \in Shards, r \in Reps : up[s][r] => ToSet(o[s][r]) = stored[s][r]
 Obs(o) == /\ ObsMatches(o)
           /\ fresh' = [s \in Shards |-> [r \in Reps |-> IF up[s][r] THEN {} ELSE fresh[s][r]]]
-          /\ UNCHANGED <<up, stored, sealedb, dup, size, acked, failed, fly, q, res, faults, nsearch, shuffle>>
+          /\ UNCHANGED <<up, stored, sealedb, redel, xtra, size, acked, failed, fly, q, res, faults, nsearch, shuffle>>
 
 \* the returned result equals the model's
 RetMatches(e) == /\ res'.status = e.status
@@ -54,9 +54,9 @@ TNext == LET e == Trace[l] IN
          \/ (Ev("bfail") /\ Fail(e.b))
          \/ (Ev("down") /\ Down(e.s, e.r))
          \/ (Ev("up") /\ Up(e.s, e.r))
-         \/ (Ev("seal") /\ Seal(e.s, e.r))
+         \/ (Ev("seal") /\ SealG(e.s, e.r))
          \/ (Ev("settle") /\ up[e.s][e.r] /\ fresh' = [fresh EXCEPT ![e.s][e.r] = {}]
-               /\ UNCHANGED <<up, stored, sealedb, dup, size, acked, failed, fly, q, res, faults, nsearch, shuffle>>)
+               /\ UNCHANGED <<up, stored, sealedb, redel, xtra, size, acked, failed, fly, q, res, faults, nsearch, shuffle>>)
          \/ (Ev("sbegin") /\ SearchBegin(e.off, e.n))
          \/ (Ev("scall") /\ SearchCall(e.s, e.r, e.out, e.a, e.tot))
          \/ (Ev("fcall") /\ FetchCall(e.s, e.r, e.out, ToSet(e.d)))
